@@ -107,20 +107,21 @@ def gen_defset(rng, n_entities=None, tie_heavy=False):
 
 
 def section_xml(sec, rng, aliases):
-    out = ['<root>']
+    chunks = []          # one chunk per top-level section; the file may list them in ANY order (sections are looked up by name)
     if sec['implements']:
-        out.append('<Implements>' + ''.join('<Interface> %s </Interface>' % i for i in sec['implements']) + '</Implements>')
+        chunks.append('<Implements>' + ''.join('<Interface> %s </Interface>' % i for i in sec['implements']) + '</Implements>')
     if sec['props'] or sec.get('raw_props') or rng.random() < 0.5:
-        out.append('<Properties>')
+        out = ['<Properties>']
         for nm, t, fl in sec['props']:
             out.append('<%s>%s<Flags> %s </Flags></%s>' % (nm, impl.type_xml(t, 'Type', rng, aliases), fl, nm))
         out.append(sec.get('raw_props', ''))
         out.append('</Properties>')
+        chunks.append('\n'.join(out))
     if sec['volatile']:
-        out.append('<Volatile>' + ''.join('<%s/>' % t for t in sec['volatile']) + '</Volatile>')
+        chunks.append('<Volatile>' + ''.join('<%s/>' % t for t in sec['volatile']) + '</Volatile>')
     for bucket, tag in (('client_methods', 'ClientMethods'), ('cell_methods', 'CellMethods'), ('base_methods', 'BaseMethods')):
         if not sec[bucket] and rng.random() < 0.5 and not (bucket == 'client_methods' and sec.get('raw_client_methods')): continue
-        out.append('<%s>' % tag)
+        out = ['<%s>' % tag]
         if bucket == 'client_methods': out.append(sec.get('raw_client_methods', ''))
         for nm, args, hdr, named in sec[bucket]:
             body = ''
@@ -130,8 +131,9 @@ def section_xml(sec, rng, aliases):
             if rng.random() < 0.2: body += '<Exposed/>'
             out.append('<%s>%s</%s>' % (nm, body, nm))
         out.append('</%s>' % tag)
-    out.append('</root>')
-    return '\n'.join(out)
+        chunks.append('\n'.join(out))
+    if rng.random() < 0.4: rng.shuffle(chunks)
+    return '\n'.join(['<root>'] + chunks + ['</root>'])
 
 
 def write_defset(ds, rng, base=None):
@@ -293,8 +295,17 @@ class History:
         import copy
         pool = self.__dict__.setdefault('_valpool', {}); key = repr(t)
         if pool.get(key) and self.rng.random() < 0.3: return copy.deepcopy(self.rng.choice(pool[key]))
-        v = self.vg.struct(t); pool.setdefault(key, []).append(copy.deepcopy(v)); pool[key] = pool[key][-6:]
+        v = self.vg.struct(t); self.twin_records(v); pool.setdefault(key, []).append(copy.deepcopy(v)); pool[key] = pool[key][-6:]
         return v
+    def twin_records(self, v):
+        """inside a list value, make some records BYTE-IDENTICAL copies of a sibling (equal but separate): a nested update of one of them changes that one only"""
+        import copy
+        if isinstance(v, list):
+            if len(v) >= 2 and isinstance(v[0], (list, dict)) and self.rng.random() < 0.5:
+                i = self.rng.randrange(len(v)); j = self.rng.randrange(len(v)); v[j] = copy.deepcopy(v[i])
+            for x in v: self.twin_records(x)
+        elif isinstance(v, dict):
+            for x in v.values(): self.twin_records(x)
     def emit(self, cls, payload, label, time_bits=None):
         tb = self.rng.choice([0, 0x3f800000, 0x7fc00000, 0x7f800000, 0x00000001, self.rng.randrange(2 ** 32)]) if time_bits is None else time_bits
         tid = self.ids[cls] if isinstance(cls, str) else cls
@@ -337,6 +348,11 @@ class History:
         self.emit('CellPlayerCreate', head + binstream(data), 'cell-player')
         if eid not in self.ents: self.ensure_entity(eid, 'Avatar')
         for n, t, v in vals: self.ents[eid]['client'][n] = (t, v)
+
+    def create_entity_at(self, eid, time_bits):
+        n0 = len(self.packets); self.create_entity(eid)
+        if len(self.packets) == n0 + 1:
+            t_, _tb, pl_, lb_ = self.packets[-1]; self.packets[-1] = (t_, time_bits, pl_, lb_)
 
     def create_entity(self, eid=None, tname=None):
         if 'EntityCreate' not in self.ids: return
@@ -490,10 +506,12 @@ class History:
 
     def player_position(self):
         if 'PlayerPosition' not in self.ids: return self.position()
-        e1 = self.rng.choice([0, self.some_id(), self.some_id()]); e2 = self.rng.choice([0, 0, self.some_id(), e1])
+        e1 = self.rng.choice([0, self.some_id(), self.some_id()]); e2 = self.rng.choice([0, 0, self.some_id(), e1, self.new_id()])
         pos = [self.fbits() for _ in range(3)]; ypr = [self.fbits() for _ in range(3)]
         payload = struct.pack('<ii', e1, e2) + b''.join(map(f32b, pos)) + b''.join(map(f32b, ypr))
-        self.emit('PlayerPosition', payload, 'player-position-%s' % ('second' if e2 else 'self'))
+        tb_ = self.rng.choice([0, 0x3f800000, 0x41200000])
+        self.emit('PlayerPosition', payload, 'player-position-%s' % ('second' if e2 else 'self'), time_bits=tb_)
+        late_create = e2 != 0 and e2 not in self.ents and -2 ** 31 <= e2 < 2 ** 31 and 'EntityCreate' in self.ids and self.rng.random() < 0.7
         # SPEC (C08): no second entity -> set the first from the packet; second entity -> copy its current pose;
         # an entity that does not exist -> ignored
         if e2 == 0:
@@ -505,6 +523,9 @@ class History:
                 for k in ('position', 'yaw', 'pitch', 'roll'): dst[k] = src[k]
             else:
                 self.spec_unsure = True        # copying from an entity without that volatile: outside the statement
+        if late_create:
+            # the named second entity is created right AFTER the packet, with the same time stamp: the packet came first and was ignored
+            self.create_entity_at(e2, tb_)
 
     # ---- packets the player only logs / ignores, and unmapped ones
     def noise(self):
@@ -827,9 +848,16 @@ class SweepHistory(History):
         if et in (('u', 1), ('u', 2)):
             lst = [self.val(et) for _ in range(254)]
             setprop('lst', lst)
-            for _ in range(2):
-                n = len(lst); ws = bits_required(n + 1); new = [self.val(et) for _ in range(40)]
+            for _ in range(7 if et == ('u', 1) else 2):
+                n = len(lst); ws = bits_required(n + 1); new = [self.val(et) for _ in range(40 if et != ('u', 1) else (40 if n + 40 <= 511 or n >= 512 else 511 - n if n < 511 else 1))]
                 nested(root + [(0, 1), (n, ws), (n, ws)], b''.join(gen_types.wire_of(et, x) for x in new), True, 'nested-slice-grow'); lst[n:n] = new
+                if len(lst) in (511, 512):
+                    # exactly 511 / 512 elements: the widths at the power of two itself (9 bits for an index into 512, 10 for a bound of 513)
+                    n = len(lst)
+                    for i in (200, n - 1):
+                        nv = self.val(et); nested(root + [(0, 1), (i, bits_required(n))], gen_types.wire_of(et, nv), False, 'nested-set-big'); lst[i] = nv
+                    ws = bits_required(n + 1); new2 = [self.val(et)]
+                    nested(root + [(0, 1), (100, ws), (102, ws)], b''.join(gen_types.wire_of(et, x) for x in new2), True, 'nested-slice-big'); lst[100:102] = new2
             for i in (0, 255, 256, 257, 300, len(lst) - 1):
                 n = len(lst); nv = self.val(et)
                 nested(root + [(0, 1), (i, bits_required(n))], gen_types.wire_of(et, nv), False, 'nested-set-big'); lst[i] = nv
